@@ -556,6 +556,37 @@ def rd_case(rng):
     return "rd %d %d %s" % (mp, tga, d.hex()), "rd-" + fam, {"maxpixels": mp, "prec": 8}
 
 
+def cmyk_cases(rng, thorough):
+    """RGB -> CMYK (load) -> save -> RGB / CMYK through the public API: >= 500k samples per precision"""
+    out = []
+    precs = [8, 12, 13, 14, 15, 16] + ([2, 3, 5, 7, 9, 10, 11] if thorough else [rng.choice([2, 3, 4, 5, 6, 7, 9, 10, 11])])
+    for prec in precs:
+        reps = (6 if thorough else 1) * (2 if prec >= 13 else 1)
+        for _ in range(reps):
+            w, h = rng.range(380, 420), rng.range(450, 480)          # ~180k pixels = 540k RGB samples
+            out.append(("cmykrt %d %d %d %d 400" % (prec, w, h, rng.below(1 << 40)), "cmykrt-%d" % prec, {"prec": prec}))
+    return out
+
+
+def cmyk_reference(prec, vals):
+    """exact-integer reference for one printed pixel (r g b c m y k): k = max(r,g,b); c, m, y are maxval*v/x rounded to the
+    NEAREST integer (the C text adds 0.5 and truncates; at an exact .5 tie the preceding floating-point roundings decide
+    the direction, so both neighbours are accepted there) and lie in 0..maxval; x = 0 gives (maxval, maxval, maxval, 0)"""
+    M = (1 << prec) - 1
+    r, g, b, c, m, y, k = vals
+    x = max(r, g, b)
+    if k != x:
+        return "K = %d, expected max(r,g,b) = %d" % (k, x)
+    if x == 0:
+        return None if (c, m, y) == (M, M, M) else "black pixel gives C,M,Y = %d %d %d" % (c, m, y)
+    for name, v, o in (("C", r, c), ("M", g, m), ("Y", b, y)):
+        if not (0 <= o <= M) or 2 * abs(o * x - M * v) > x:
+            return "%s = %d is not maxval*%d/%d rounded to nearest (maxval %d)" % (name, o, v, x, M)
+        if (2 * o * x + M) // (2 * M) != v:
+            return "cmyk_to_rgb(%s=%d, K=%d) does not give back %d" % (name, o, x, v)
+    return None
+
+
 def matrix_cases(rng, n_extra):
     """EVERY format family presented to EVERY entry point / precision: tj3LoadImage8/12/16 x TJPARAM_PRECISION 2..16
     and the cjpeg front end x -precision 2..16; one clean file per cell, then random cells with mutated files"""
@@ -625,7 +656,7 @@ def judge_load(line, impl, meta):
 
 def run(ctx):
     rng = ctx.rng
-    for g in ("Pnm", "ImgPrec", "ImgRd"):
+    for g in ("Pnm", "ImgPrec", "ImgRd", "Cmyk"):
         if not ctx.regen([g]):
             # core.regen removes gen/Gen<g>.v when the translator fails; a compiled file left from an
             # earlier run would still satisfy make, so remove it as well (request to lead: do this in core)
@@ -674,6 +705,7 @@ def run(ctx):
     for i in range(ctx.n(2500, 40000)):
         cases.append(cj_case(rng))
     cases += matrix_cases(rng, ctx.n(1200, 20000))
+    cases += cmyk_cases(rng, ctx.thorough())
     for i in range(ctx.n(3000, 50000)):
         cases.append(rd_case(rng))
     for i in range(ctx.n(4, 40)):
@@ -783,6 +815,16 @@ def run_cases(ctx, cases, exes, drv, flavours):
                     bad = ("cjpeg front end accepted %sx%s pixels with a limit of %d" % (f[2], f[3], meta["maxpixels"]), "pixel-limit")
             elif not (len(f) >= 3 and f[1] == "err"):
                 bad = ("cjpeg front end produced no verdict: " + impl[:60], "no-verdict")
+        elif cmd == "cmykrt":
+            if not impl.startswith("cmykrt ok "):
+                bad = ("CMYK save/load round trip (RGB -> CMYK -> file -> RGB/CMYK) is not exact: " + impl[:300], "cmyk-roundtrip")
+            else:
+                v = [int(x) for x in impl.split("|", 1)[1].split()]
+                for j in range(0, len(v) - 6, 7):
+                    why = cmyk_reference(meta["prec"], v[j:j + 7])
+                    if why:
+                        bad = ("rgb_to_cmyk at precision %d on RGB %s: %s" % (meta["prec"], v[j:j + 3], why), "cmyk-reference")
+                        break
         elif cmd == "rd":
             f = impl.split()
             if len(f) >= 7 and f[1] == "ok":
